@@ -514,7 +514,14 @@ impl std::io::Write for FileSpillWriter {
             )));
         }
 
-        self.file.write_all(buf).map_err(DataFusionError::IoError)?;
+        if let Err(e) = self.file.write_all(buf) {
+            // The write failed, so these bytes are not accounted to the file and
+            // would never be subtracted again: return them to the global counter.
+            self.disk_manager
+                .used_disk_space
+                .fetch_sub(len, Ordering::Relaxed);
+            return Err(DataFusionError::IoError(e).into());
+        }
 
         #[cfg(datafusion_verif)]
         datafusion_common::verif::sync_point("disk_manager:507");
